@@ -497,11 +497,20 @@ class VM:
         if isinstance(v, Agg) and v.tag in self.enums and name in self.enums[v.tag]:
             return self.enums[v.tag].index(name)
         external = 'graphql_parser' in (ty or '')
+        base = _base_type(ty or '')
+        exact = [(en, i) for en, i in cands if en.split('::')[-1] == base and ('::' in en) == external]
+        if exact:
+            return exact[0][1]
         pref = [(en, i) for en, i in cands if ('::' in en) == external]
         if isinstance(v, SymEnum):
             pref = [(en, i) for en, i in pref if i in v.cases and max(v.cases) < len(self.enums[en])] or pref
         if len(set(i for _, i in pref)) == 1:
             return pref[0][1]
+        if isinstance(v, SymEnum):
+            # last resort (as before): the first enum whose variant range covers the value's cases
+            for en, i in cands:
+                if set(v.cases) <= set(range(len(self.enums[en]))) and i in v.cases:
+                    return i
         raise Unsupported(f'ambiguous variant {name}: {cands}')
 
     # ------------------------------------------------------------ operands
@@ -527,6 +536,9 @@ class VM:
         if c.startswith("'"):
             ch = _unescape(c[1:-1])
             return bv(ord(ch), 32)
+        if c.startswith('b"'):
+            body = c[2:c.rindex('"')]
+            return Opaque('bytes', body.encode('latin-1').decode('unicode_escape').encode('latin-1'))
         if c.startswith('ZeroSized: '):
             t = c[11:]
             mm = re.search(r'\{closure@[^}]*\}', t)
@@ -900,6 +912,12 @@ class VM:
         if fn is not None:
             self.push_call(st, fn, argvals, dest, ret_bb)
             return None
+        norm = callee
+        for a, b in (('std::option::Option', 'Option'), ('std::result::Result', 'Result'), ('std::vec::Vec', 'Vec'), ('std::borrow::Cow', 'Cow'),
+                     ('std::collections::BTreeMap', 'BTreeMap'), ('std::collections::BTreeSet', 'BTreeSet'), ('std::iter::Iterator', 'Iterator'),
+                     ('std::ops::Deref', 'Deref'), ('std::clone::Clone', 'Clone'), ('std::string::ToString', 'ToString'), ('std::cmp::PartialEq', 'PartialEq')):
+            norm = norm.replace(a, b)
+        callee = norm
         for rx, handler, name in self.summaries:
             m = rx.search(callee)
             if m:
